@@ -239,6 +239,11 @@ class C10(Check):
                 raise Violation("validate-defaults-reject-conforming", f"validate(datum, schema) with default options: {o!r:.200}; {ctx if False else ''}datum={datum!r:.150} schema={js!r:.200}")
             if not want and (o[0] == "ok" or not isinstance(o[1], ValidationError)):
                 raise Violation("validate-defaults-accept-nonconforming", f"validate(datum, schema) with default options: {o!r:.200}; datum={datum!r:.150} schema={js!r:.200}")
+            om = bincase_outcome(validate_many, [datum], schema)
+            if want and (om[0] != "ok" or om[1] is not True):
+                raise Violation("validate_many-defaults-reject-conforming", f"validate_many([datum], schema) with default options: {om!r:.200}; datum={datum!r:.150} schema={js!r:.200}")
+            if not want and (om[0] == "ok" or not isinstance(om[1], ValidationError)):
+                raise Violation("validate_many-defaults-accept-nonconforming", f"validate_many([datum], schema) with default options: {om!r:.200}; datum={datum!r:.150} schema={js!r:.200}")
         got = guard("validate", validate, datum, schema, raise_errors=False, **kw)
         if got is not want:
             raise Violation(f"validate-returns-{got}-expected-{want}" + (":" + case["mutation"] if case.get("mutation") else ""), ctx)
